@@ -1,5 +1,6 @@
 #!/bin/bash
-# runs both corpora against all checks from the directory this script lives in (use with `vp run`)
+# runs both corpora against all checks from the directory this script lives in (use with `vp run`); /repo must not be modified meanwhile
 cd "$(dirname "$0")/.."
-./setup.sh && python3 tools/seed_matrix.py > matrix_seeded.log 2>&1
+./setup.sh
 python3 tools/seed_matrix.py --refactors > matrix_refactors.log 2>&1
+python3 tools/seed_matrix.py > matrix_seeded.log 2>&1
